@@ -91,6 +91,8 @@ type vSim struct {
 	keepLog bool
 	onEv    func(ev *verifsim.TraceEvent, worldLocked bool)
 	tickWG  sync.WaitGroup // handler goroutines (incl. zombies of killed processes)
+	maintNow, lastSwitchNow, h1Health string // C05: driver-side copies of tree values (refreshed per round)
+	activeNow []string
 	lastSrcC1 string // C16: source and thread state of the cascade replica at the start of the round
 	c1WasRepl bool
 	lastMaster atomic.Value // last value written to the master key (string)
